@@ -52,6 +52,14 @@ Theorem C03_hlane_global_exclusion : forall F, forest_ok F -> forall s t1 t2 l1 
 Proof. exact global_exclusion. Qed.
 Print Assumptions C03_hlane_global_exclusion.
 
+(* ... more generally the whole hierarchy below a serial bottom is drained by one thread at a time: two threads past
+   drain_try_lock on lanes whose target chains end in the same bottom are the same thread *)
+Theorem C03_hlane_hierarchy_drain_exclusive : forall F, forest_ok F -> forall s t1 t2 l1 l2 p1 p2,
+  reach F s -> In (l1, p1) (stk s t1) -> locked_pc p1 = true -> In (l2, p2) (stk s t2) -> locked_pc p2 = true ->
+  bottom F l1 = bottom F l2 -> t1 = t2.
+Proof. exact hierarchy_drain_exclusive. Qed.
+Print Assumptions C03_hlane_hierarchy_drain_exclusive.
+
 (* 3. each lane still starts its own items in its own tail-exchange (= submission) order, each at most once, only
       submitted ones: rev (started l) is a prefix of 0,1,2,...,nextid l - 1; the k-th callout of lane l to begin is item k *)
 Theorem C03_hlane_per_lane_fifo : forall F, forest_ok F -> forall s l,
@@ -104,6 +112,19 @@ Theorem C03_hlane_inner_lock_succeeds : forall F, forest_ok F -> forall s t l fl
   reach F s -> stk s t = (l, PW_lock fl) :: r -> target F l <> None -> exists new, w_lock t fl (st s l) = Commit new OWN.
 Proof. exact inner_lock_succeeds. Qed.
 Print Assumptions C03_hlane_inner_lock_succeeds.
+
+(* 5. no reachable state is stuck: a thread inside a call or a drain (at any depth of nesting) can step, or it waits for
+      an enqueuer's link and that enqueuer (another thread, one step from publishing it) can; in particular a nested
+      invoke always returns control to the drain loop of the target, and dispatch_async_f never waits for anything *)
+Theorem C03_hlane_no_stuck_thread : forall F, forest_ok F -> forall s t,
+  reach F s -> valid_tid t -> stk s t <> [] -> enabled F s t \/ exists u, u <> t /\ enabled F s u.
+Proof. exact no_stuck_thread. Qed.
+Print Assumptions C03_hlane_no_stuck_thread.
+
+Theorem C03_hlane_async_never_blocks : forall F, forest_ok F -> forall s t l p r,
+  reach F s -> stk s t = (l, p) :: r -> is_drain p = false -> enabled F s t.
+Proof. exact async_never_blocks. Qed.
+Print Assumptions C03_hlane_async_never_blocks.
 
 (* non-vacuity: two inner lanes on one bottom, three submitters, two workers; items of both inner lanes run, in order;
    the run exercises the nested invoke, a refused unlock of an inner lane with the re-enqueue by invoke_finish, the
